@@ -378,7 +378,7 @@ pub fn run(ctx: &mut Ctx, hash: bool) {
     let mut rng = ctx.rng(if hash { 0xC07 } else { 0xC06 });
     let hows = [How::Ctor, How::Mixed, How::ParseAscii, How::ParseHan, How::ParseLatex, How::Thread, How::Clone];
     let reps = if ctx.thorough { 6 } else { 8 };
-    let n = if hash { ctx.share(60_000, 4_000_000) } else { ctx.share(80_000, 6_000_000) };
+    let n = if hash { ctx.share(250_000, 8_000_000) } else { ctx.share(250_000, 10_000_000) };
 
     // (0) fixed small-scope family: every set-like kind nested in every set-like kind / symmetric
     // statement, with 3 distinct members, all 6 insertion orders of the inner set vs the first one.
